@@ -184,12 +184,12 @@ Qed.
 
 (* ---------- clauses of progress_ok ---------- *)
 
-Theorem sched_samples_sound c : sched_valid c -> sched_check c = true ->
+Theorem sched_samples_sound c : sched_valid c -> sched_check_core c = true ->
   monotone_from (sc_d0 c) (samples c) = true /\
   forallb (fun x => x <? sc_marker c) (samples c) = true /\
   sc_stalled c = false /\ (sc_final_committed c =? sc_marker c) = true.
 Proof.
-  intros V H. unfold sched_check in H.
+  intros V H. unfold sched_check_core in H.
   destruct (run_steps (sc_cidx0 c) _ _ _ _) as [[sf qf]|] eqn:Er; [|discriminate].
   pose proof (kinv_init _ _ (sched_valid_wf c V)) as I0.
   destruct (run_steps_ok _ _ _ _ _ _ _ Er I0 ltac:(simpl; lia)) as (If & Df & Mf & Sf & Rf).
@@ -224,10 +224,10 @@ Proof.
   - destruct (IH _ _ _ Hx) as [st' [A B]]. exists st'. split; [right; exact A|exact B].
 Qed.
 
-Theorem sched_headers_sound c : sched_valid c -> sched_check c = true ->
+Theorem sched_headers_sound c : sched_valid c -> sched_check_core c = true ->
   forallb (fun r => header_ok (rr_resp r)) (case_records c) = true.
 Proof.
-  intros V H. unfold sched_check in H.
+  intros V H. unfold sched_check_core in H.
   destruct (run_steps (sc_cidx0 c) _ _ _ _) as [[sf qf]|] eqn:Er; [|discriminate].
   pose proof (kinv_init _ _ (sched_valid_wf c V)) as I0.
   destruct (run_steps_ok _ _ _ _ _ _ _ Er I0 ltac:(simpl; lia)) as (_ & _ & _ & _ & Rf).
@@ -285,11 +285,11 @@ End Carry.
 
 (* ---------- C01: the observed final dump is the image of a chain of applied commits ---------- *)
 
-Theorem sched_final_dump_chain c : sched_valid c -> sched_check c = true ->
+Theorem sched_final_dump_chain c : sched_valid c -> sched_check_core c = true ->
   exists lg, chain (store_of (sc_init c)) lg /\
     forall k ks, In (k, ks) (sc_final c) -> kstate_eqb (replay (store_of (sc_init c)) lg k) ks = true.
 Proof.
-  intros V H. unfold sched_check in H.
+  intros V H. unfold sched_check_core in H.
   destruct (run_steps (sc_cidx0 c) _ _ _ _) as [[sf qf]|] eqn:Er; [|discriminate].
   pose proof (sched_valid_wf c V) as W.
   set (store0 := store_of (sc_init c)) in *.
@@ -310,3 +310,251 @@ Qed.
    the request applied nothing, and (C01_failure_justified on a one-request run) the key differed when it came in *)
 Lemma proxy_oracle_error c : is_error (px_resp c) = true -> proxy_ok c = true.
 Proof. unfold proxy_ok. destruct (px_resp c); simpl; try discriminate. reflexivity. Qed.
+
+(* ---------- validity is decidable and checked ---------- *)
+
+Lemma nodup_keys_NoDup l : nodup_keys l = true -> NoDup l.
+Proof.
+  induction l as [|x l IH]; simpl; [constructor|]. intros H. apply andb_true_iff in H. destruct H as [H1 H2].
+  constructor; [|apply IH, H2]. intros Hin. apply mem_N_In in Hin. rewrite Hin in H1. discriminate.
+Qed.
+
+Lemma sched_validb_sound c : sched_validb c = true -> sched_valid c.
+Proof.
+  unfold sched_validb, sched_valid. intros H. repeat (apply andb_true_iff in H; destruct H as [H ?]).
+  repeat split; try (apply nodup_keys_NoDup; assumption).
+  apply Forall_forall. intros kk Hin. rewrite forallb_forall in H0. apply H0, Hin.
+Qed.
+
+Lemma sched_check_split c : sched_check c = true -> sched_valid c /\ sched_check_core c = true.
+Proof. unfold sched_check. intros H. apply andb_true_iff in H. destruct H as [H1 H2]. split; [apply sched_validb_sound, H1|exact H2]. Qed.
+
+(* ---------- the responses the check saw are the responses the model's log holds ---------- *)
+
+From KB Require Import Proofs.KeySysUniq.
+
+Definition rets (l : list entry) : list resp :=
+  flat_map (fun e => match e with EReturn _ r => [r] | _ => [] end) l.
+
+Lemma resp_eqb_eq a b : resp_eqb a b = true -> a = b.
+Proof.
+  assert (Hkv : forall x y : option (bytes * N), opt_eqb kvr_eqb x y = true -> x = y).
+  { intros [[v m]|] [[v' m']|]; simpl; try discriminate; auto. unfold kvr_eqb. simpl. intros H.
+    apply andb_true_iff in H. destruct H as [H1 H2]. apply beqb_eq in H1. apply N.eqb_eq in H2. subst. reflexivity. }
+  destruct a, b; simpl; try discriminate; intros H; auto;
+    repeat (apply andb_true_iff in H; destruct H as [H ?]);
+    repeat match goal with
+           | H : (_ =? _) = true |- _ => apply N.eqb_eq in H
+           | H : Bool.eqb _ _ = true |- _ => apply Bool.eqb_prop in H
+           | H : opt_eqb kvr_eqb _ _ = true |- _ => apply Hkv in H
+           end; subst; reflexivity.
+Qed.
+
+Lemma list_eqb_resp_eq l l' : list_eqb resp_eqb l l' = true -> l = l'.
+Proof.
+  revert l'. induction l as [|a l IH]; intros [|b l']; simpl; try discriminate; auto.
+  intros H. apply andb_true_iff in H. destruct H as [H1 H2]. rewrite (resp_eqb_eq _ _ H1), (IH _ H2). reflexivity.
+Qed.
+
+Section Rets.
+Variable cidx0 : bool.
+
+Lemma rets_kstep s l :
+  rets (log (kstep cidx0 s l)) = rets (log s) \/
+  (exists t r, l = LReturn t /\ thr s t = PReturn r /\ rpanic (rs s) = false /\ rets (log (kstep cidx0 s l)) = r :: rets (log s)).
+Proof.
+  unfold kstep. destruct (rpanic (rs s)) eqn:Hp; [left; reflexivity|].
+  destruct l as [t q|t|t e|t|t|]; cbn [log observe].
+  - left. unfold step_invoke. destruct (thr s t); reflexivity.
+  - left. unfold step_deal. destruct (thr s t); try reflexivity; unfold do_deal;
+      repeat match goal with |- context [if ?x then _ else _] => destruct x end; reflexivity.
+  - left. unfold step_engine. destruct (thr s t); try reflexivity;
+      repeat match goal with |- context [match ?x with _ => _ end] => destruct x end; reflexivity.
+  - left. unfold step_notify. destruct (thr s t); try reflexivity.
+    match goal with |- context [if rpanic ?x then _ else _] => destruct (rpanic x) end; reflexivity.
+  - unfold step_return. destruct (thr s t) eqn:Ht; try (left; reflexivity).
+    right. exists t, r. repeat split; auto.
+  - left. unfold step_seq. destruct (seq_ready (rs s)); reflexivity.
+Qed.
+
+Lemma run_local_rets fuel : forall s t queue acc s' qu ac ls,
+  run_local cidx0 fuel s t queue acc = (s', qu, ac, ls) ->
+  exists new, ac = acc ++ new /\ rets (log s') = rev new ++ rets (log s).
+Proof.
+  induction fuel as [|fuel IH]; intros s t queue acc s' qu ac ls H; simpl in H.
+  - injection H as <- <- <- <-. exists []. rewrite app_nil_r. auto.
+  - destruct (rpanic (rs s)) eqn:Hp; [injection H as <- <- <- <-; exists []; rewrite app_nil_r; auto|].
+    destruct (is_engine_pc (thr s t)); [injection H as <- <- <- <-; exists []; rewrite app_nil_r; auto|].
+    assert (Hstep : forall l queue0, (forall t0, l <> LReturn t0) ->
+               (let '(s1, qu1, ac1, ls1) := run_local cidx0 fuel (kstep cidx0 s l) t queue0 acc in (s1, qu1, ac1, l :: ls1))
+               = (s', qu, ac, ls) -> exists new, ac = acc ++ new /\ rets (log s') = rev new ++ rets (log s)).
+    { intros l queue0 Hl E.
+      destruct (run_local cidx0 fuel (kstep cidx0 s l) t queue0 acc) as [[[s1 qu1] ac1] ls1] eqn:Er.
+      injection E as <- <- <- <-. destruct (IH _ _ _ _ _ _ _ _ Er) as [new [E1 E2]].
+      exists new. split; [exact E1|]. rewrite E2.
+      destruct (rets_kstep s l) as [->|(t0 & r & -> & _)]; [reflexivity|]. exfalso. eapply Hl. reflexivity. }
+    destruct (thr s t) eqn:Ht; try (eapply Hstep; [|exact H]; discriminate).
+    + destruct queue as [|q0 queue']; [injection H as <- <- <- <-; exists []; rewrite app_nil_r; auto|].
+      eapply Hstep; [|exact H]. discriminate.
+    + destruct (run_local cidx0 fuel (kstep cidx0 s (LReturn t)) t queue (acc ++ [r])) as [[[s1 qu1] ac1] ls1] eqn:Er.
+      injection H as <- <- <- <-. destruct (IH _ _ _ _ _ _ _ _ Er) as [new [E1 E2]].
+      exists (r :: new). split; [rewrite E1, <- app_assoc; reflexivity|]. rewrite E2.
+      destruct (rets_kstep s (LReturn t)) as [E|(t0 & r0 & [= <-] & Ht0 & _ & ->)].
+      * exfalso. unfold kstep in E. rewrite Hp in E. cbn [log observe] in E. unfold step_return in E. rewrite Ht in E.
+        simpl in E. apply (f_equal (@length _)) in E. simpl in E. lia.
+      * rewrite Ht in Ht0. injection Ht0 as <-. simpl. rewrite <- app_assoc. reflexivity.
+Qed.
+
+Lemma seq_all_rets fuel : forall s, rets (log (seq_all cidx0 fuel s)) = rets (log s).
+Proof.
+  induction fuel as [|fuel IH]; intros s; simpl; [reflexivity|].
+  destruct (enabled s LSeqTake); [|reflexivity]. rewrite IH.
+  destruct (rets_kstep s LSeqTake) as [->|(t0 & r & E & _)]; [reflexivity|discriminate].
+Qed.
+
+Lemma run_steps_rets steps : forall s queues prev sf qf,
+  run_steps cidx0 s queues prev steps = Some (sf, qf) ->
+  rets (log sf) = rev (concat (map st_resps steps)) ++ rets (log s).
+Proof.
+  induction steps as [|st steps IH]; intros s queues prev sf qf H; cbn [run_steps] in H.
+  - injection H as <- _. reflexivity.
+  - destruct (ekind_eqb (st_kind st) KHold).
+    { match type of H with (if ?c then _ else _) = _ => destruct c eqn:Ec; [|discriminate] end.
+      repeat (apply andb_true_iff in Ec; destruct Ec as [Ec ?]).
+      rewrite (IH _ _ _ _ _ H), seq_all_rets. simpl. destruct (st_resps st); [reflexivity|discriminate]. }
+    destruct (resume cidx0 s (st_t st) (st_env st) (lookup [] (st_t st) queues)) as [[[s1 qu] resps] ls] eqn:Er.
+    match type of H with (if ?c then _ else _) = _ => destruct c eqn:Ec; [|discriminate] end.
+    repeat (apply andb_true_iff in Ec; destruct Ec as [Ec ?]).
+    rewrite (IH _ _ _ _ _ H), seq_all_rets.
+    assert (E1 : rets (log s1) = rev resps ++ rets (log s)).
+    { unfold resume in Er. destruct (is_engine_pc (thr s (st_t st))).
+      - destruct (run_local cidx0 resume_fuel _ _ _ _) as [[[s2 qu2] ac2] ls2] eqn:E2.
+        injection Er as <- _ <- _. destruct (run_local_rets _ _ _ _ _ _ _ _ _ E2) as [new [-> ->]]. simpl.
+        destruct (rets_kstep s (LEngine (st_t st) (st_env st))) as [->|(t0 & r & E & _)]; [reflexivity|discriminate].
+      - destruct (run_local_rets _ _ _ _ _ _ _ _ _ Er) as [new [-> ->]]. reflexivity. }
+    rewrite E1. match goal with Hl : list_eqb resp_eqb _ _ = true |- _ => apply list_eqb_resp_eq in Hl; subst resps end. simpl. rewrite rev_app_distr, <- app_assoc. reflexivity.
+Qed.
+End Rets.
+
+(* ---------- subsequences ---------- *)
+
+Inductive Subseq {A} : list A -> list A -> Prop :=
+| SsNil : Subseq [] []
+| SsSkip x l1 l2 : Subseq l1 l2 -> Subseq l1 (x :: l2)
+| SsTake x l1 l2 : Subseq l1 l2 -> Subseq (x :: l1) (x :: l2).
+
+Lemma subseq_nil {A} (l : list A) : Subseq [] l.
+Proof. induction l; constructor; auto. Qed.
+
+Lemma subseq_refl {A} (l : list A) : Subseq l l.
+Proof. induction l; [constructor|apply SsTake; assumption]. Qed.
+
+Lemma subseq_app {A} (a b c d : list A) : Subseq a b -> Subseq c d -> Subseq (a ++ c) (b ++ d).
+Proof.
+  induction 1; simpl; intros H'; [exact H'|apply SsSkip; auto|apply SsTake; auto].
+Qed.
+
+Lemma subseq_In {A} (a b : list A) x : Subseq a b -> In x a -> In x b.
+Proof. induction 1; simpl; intros Hin; auto. destruct Hin; auto. Qed.
+
+Lemma subseq_NoDup {A} (a b : list A) : Subseq a b -> NoDup b -> NoDup a.
+Proof.
+  induction 1; intros Hn; auto; inversion Hn; subst; auto.
+  constructor; auto. intros Hin. apply H2. eapply subseq_In; eauto.
+Qed.
+
+Lemma subseq_flat_map {A B} (f : A -> list B) a b : Subseq a b -> Subseq (flat_map f a) (flat_map f b).
+Proof.
+  induction 1; simpl; [constructor| |].
+  - change (flat_map f l1) with ([] ++ flat_map f l1). apply subseq_app; [apply subseq_nil|exact IHSubseq].
+  - apply subseq_app; [apply subseq_refl|exact IHSubseq].
+Qed.
+
+Lemma emit_subseq t i : forall resps ts ts' recs,
+  emit t i ts resps = (ts', recs) -> Subseq (map rr_resp recs) resps.
+Proof.
+  induction resps as [|r resps IH]; intros ts ts' recs H; simpl in H.
+  - injection H as _ <-. constructor.
+  - destruct (ts_queue ts) as [|q0 queue']; [injection H as _ <-; apply subseq_nil|].
+    destruct (emit t i _ resps) as [ts2 recs2] eqn:E. injection H as _ <-. simpl. apply SsTake. eapply IH; eauto.
+Qed.
+
+Lemma records_subseq steps : forall i tss,
+  Subseq (map rr_resp (records i tss steps)) (concat (map st_resps steps)).
+Proof.
+  induction steps as [|st steps IH]; intros i tss; simpl; [constructor|].
+  match goal with |- context [let '(_, _) := ?e in _] => destruct e as [ts2 recs] eqn:E end.
+  rewrite map_app. apply subseq_app; [eapply emit_subseq; eauto|apply IH].
+Qed.
+
+Definition exact_of (r : resp) : list N := match resp_exact_rev r with Some x => [x] | None => [] end.
+
+Lemma ret_revs_rets l : ret_revs l = flat_map exact_of (rets l).
+Proof.
+  unfold ret_revs, rets. induction l as [|e l IH]; simpl; [reflexivity|].
+  destruct e; simpl; auto. rewrite IH. reflexivity.
+Qed.
+
+Lemma exact_revs_flat recs : exact_revs recs = flat_map exact_of (map rr_resp recs).
+Proof. induction recs as [|r recs IH]; simpl; [reflexivity|]. rewrite <- IH. reflexivity. Qed.
+
+Lemma flat_map_exact_rev l : flat_map exact_of (rev l) = rev (flat_map exact_of l).
+Proof.
+  induction l as [|r l IH]; simpl; [reflexivity|]. rewrite flat_map_app, IH, rev_app_distr. simpl. rewrite app_nil_r.
+  unfold exact_of. destruct (resp_exact_rev r); reflexivity.
+Qed.
+
+Lemma nodupb_complete l : NoDup l -> nodupb l = true.
+Proof.
+  induction 1 as [|x l Hn Hd IH]; simpl; [reflexivity|]. rewrite IH, andb_true_r.
+  apply negb_true_iff. destruct (mem_N x l) eqn:E; [|reflexivity]. apply mem_N_In in E. contradiction.
+Qed.
+
+(* ---------- the uniqueness and range clauses of rev_ok ---------- *)
+
+Theorem sched_unique_sound c : sched_valid c -> sched_check_core c = true ->
+  nodupb (exact_revs (case_records c)) = true /\
+  forallb (fun x => (sc_d0 c <? x) && (x <? sc_marker c)) (exact_revs (case_records c)) = true.
+Proof.
+  intros V H. unfold sched_check_core in H.
+  destruct (run_steps (sc_cidx0 c) _ _ _ _) as [[sf qf]|] eqn:Er; [|discriminate].
+  pose proof (sched_valid_wf c V) as W.
+  set (s0 := kinit (sc_d0 c) (store_of (sc_init c))) in *.
+  assert (Pf : kinv sf /\ uinv (sc_d0 c) sf).
+  { refine (run_steps_P (sc_cidx0 c) (fun s => kinv s /\ uinv (sc_d0 c) s) _ _ _ _ _ _ _ Er _).
+    - intros s l (A & B). split; [apply kinv_step, A|apply uinv_step; assumption].
+    - split; [apply kinv_init, W|apply uinv_init]. }
+  destruct Pf as (If & Uf).
+  pose proof (run_steps_rets _ _ _ _ _ _ _ Er) as Hr. simpl in Hr. rewrite app_nil_r in Hr.
+  assert (Hsub : Subseq (exact_revs (case_records c)) (rev (ret_revs (log sf)))).
+  { rewrite exact_revs_flat, ret_revs_rets, Hr, <- flat_map_exact_rev, rev_involutive.
+    apply subseq_flat_map. unfold case_records. apply records_subseq. }
+  repeat (apply andb_true_iff in H; destruct H as [H ?]).
+  match goal with Hm : (sc_marker c =? _) = true |- _ => apply N.eqb_eq in Hm; rename Hm into Hmark end.
+  split.
+  - apply nodupb_complete. eapply subseq_NoDup; [exact Hsub|]. apply NoDup_rev, (u_nodup _ _ Uf).
+  - apply forallb_forall. intros x Hx. pose proof (subseq_In _ _ _ Hsub Hx) as Hin. apply in_rev in Hin.
+    pose proof (u_rrng _ _ Uf x Hin). apply andb_true_iff. split; [apply N.ltb_lt|apply N.ltb_lt]; lia.
+Qed.
+
+(* ---------- the statements over the check alone (validity is part of it) ---------- *)
+
+Theorem sched_samples_sound_checked c : sched_check c = true ->
+  monotone_from (sc_d0 c) (samples c) = true /\
+  forallb (fun x => x <? sc_marker c) (samples c) = true /\
+  sc_stalled c = false /\ (sc_final_committed c =? sc_marker c) = true.
+Proof. intros H. destruct (sched_check_split c H). apply sched_samples_sound; assumption. Qed.
+
+Theorem sched_headers_sound_checked c : sched_check c = true ->
+  forallb (fun r => header_ok (rr_resp r)) (case_records c) = true.
+Proof. intros H. destruct (sched_check_split c H). apply sched_headers_sound; assumption. Qed.
+
+Theorem sched_unique_sound_checked c : sched_check c = true ->
+  nodupb (exact_revs (case_records c)) = true /\
+  forallb (fun x => (sc_d0 c <? x) && (x <? sc_marker c)) (exact_revs (case_records c)) = true.
+Proof. intros H. destruct (sched_check_split c H). apply sched_unique_sound; assumption. Qed.
+
+Theorem sched_final_dump_chain_checked c : sched_check c = true ->
+  exists lg, chain (store_of (sc_init c)) lg /\
+    forall k ks, In (k, ks) (sc_final c) -> kstate_eqb (replay (store_of (sc_init c)) lg k) ks = true.
+Proof. intros H. destruct (sched_check_split c H). apply sched_final_dump_chain; assumption. Qed.
